@@ -108,7 +108,25 @@ def run(prog: Program, res: Result) -> None:
     chain.check_solve(prog, res, P)
     chain.check_correct_solution(prog, res, P)
     chain.no_task_subclass_overrides(prog, res, P)
+    chain.check_chain_pure(prog, res, P)
+    _variable_domain_obligations(prog, res, P)
 
+
+
+def _variable_domain_obligations(prog: Program, res: Result, P: str) -> None:
+    """Membership is *delivered* by Variable.correct / get_bounds / delegation: those obligations are decided by C13's rule
+    module and are re-evaluated here because this property fails with them (idempotence findings stay C13/C02's)."""
+    from . import c13
+    sub = Result(prop="C13")
+    c13.run(prog, sub)
+    res.errors.extend(e for e in sub.errors if e not in res.errors and "closed-world" not in e)
+    n = 0
+    for f in sub.findings:
+        if f.rule.startswith(("C13.R2", "C13.R4")):
+            n += 1
+            res.ob(False)
+            res.add(Finding(P, f"{P}.domain.{f.rule[4:]}", f.key, f.loc, f"{f.msg} - corrected positions can leave the declared domain"))
+    res.ob(n == 0, f"Variable.correct / bounds / delegation obligations of C13 re-evaluated: {sub.discharged} discharged", "domain-obligations")
 
 # ---------------------------------------------------------------------------------------------
 from ..selftest import V, run_battery  # noqa: E402
